@@ -26,7 +26,7 @@ ASSUMPTIONS = [
     "ignore_feedback=True exempts the caller-requested case; latch/unlatch use it by design",
 ]
 SANITY = ["writes_with_injected_fault", "writes_to_nonconforming_unit", "writes_returning_normally"]
-BOUNDS = {"quick": "exactly 1 fault per run, at every answering step; 4 data patterns; short-write lengths {0,1,n-1,n,n+1}",
+BOUNDS = {"quick": "exactly 1 fault per run, at every answering step; 4 data patterns; short-write lengths {0,1,n-1,n,n+1}; strings of every length 0..n; all 64 addresses x gear/device on 3 values",
           "thorough": "same fault placement for all 6 data patterns; every short-write length 0..n+1"}
 
 DOC_EXC = ("MemoryLocationNotWriteable", "MemoryWriteFailure", "ResponseError", "MemoryValueNotWriteable", "ValueError")
